@@ -60,13 +60,13 @@ func parserCorpora(w *W, f func(kind, src string)) {
 
 var c01AliasTables = []map[string]string{
 	nil,
-	{"a": "a"},                                  // self reference
-	{"a": "b", "b": "a"},                        // 2-cycle
-	{"a": "b", "b": "c", "c": "a"},              // 3-cycle
-	{"a": "b ", "b": "a "},                      // cycle through trailing blanks
-	{"a": "x; b |", "b": "if a; then"},          // operators and reserved words
-	{"a": "b\nc", "b": "'q", "c": "a \n a"},     // newline, unterminated quote
-	{"a": "for", "if": "a", "{": "(", "b": ""},  // reserved words as names, empty value
+	{"a": "a"},                                 // self reference
+	{"a": "b", "b": "a"},                       // 2-cycle
+	{"a": "b", "b": "c", "c": "a"},             // 3-cycle
+	{"a": "b ", "b": "a "},                     // cycle through trailing blanks
+	{"a": "x; b |", "b": "if a; then"},         // operators and reserved words
+	{"a": "b\nc", "b": "'q", "c": "a \n a"},    // newline, unterminated quote
+	{"a": "for", "if": "a", "{": "(", "b": ""}, // reserved words as names, empty value
 }
 
 type byteReader struct{ r *strings.Reader }
@@ -268,11 +268,17 @@ func documentedError(err error) bool {
 var c19Configs []*printer.Config
 
 func c19Downstream(w *W, src string) {
+	c19Steps(src, func(k string) { w.Count(k, 1) }, func(c interface{}, detail string) { w.Violation("", c, detail) })
+}
+
+// c19Steps runs every downstream consumer on the AST parsed from src (shared by the run and the replay).
+func c19Steps(src string, count func(string), violation func(c interface{}, detail string)) {
 	cmds, comments, err := parser.ParseCommands(nil, "t", src)
 	quiesce()
 	if err != nil {
 		return
 	}
+	w := c19Sink{count, violation}
 	w.Count("accepted_asts", 1)
 	what := ""
 	func() {
@@ -313,6 +319,93 @@ func c19Downstream(w *W, src string) {
 			}
 		}
 	}()
+}
+
+type c19Sink struct {
+	count     func(string)
+	violation func(c interface{}, detail string)
+}
+
+func (s c19Sink) Count(k string, n int) { s.count(k) }
+func (s c19Sink) Violation(class string, c interface{}, detail string) {
+	s.violation(c, detail)
+}
+
+// c19Replay re-runs the entry point a recorded case names.
+func c19Replay(raw json.RawMessage) error {
+	var c struct {
+		Source  *string `json:"source"`
+		Indent  *int    `json:"indent"`
+		Width   int     `json:"width"`
+		Option  *int    `json:"option"`
+		Eval    *string `json:"eval"`
+		Pattern *string `json:"pattern"`
+		Mode    *int    `json:"mode"`
+		Subject string  `json:"subject"`
+		Glob    *string `json:"glob"`
+	}
+	if err := json.Unmarshal(raw, &c); err != nil {
+		return err
+	}
+	var first error
+	guard := func(what string, f func() error) {
+		defer func() {
+			if e := recover(); e != nil && first == nil {
+				first = fmt.Errorf("%s panicked: %v", what, e)
+			}
+		}()
+		if err := f(); !documentedError(err) && first == nil {
+			first = fmt.Errorf("%s returns an undocumented error type %T: %v", what, err, err)
+		}
+	}
+	switch {
+	case c.Source != nil && c.Indent != nil:
+		cmds, _, err := parser.ParseCommands(nil, "t", *c.Source)
+		quiesce()
+		if err != nil || len(cmds) == 0 {
+			return nil
+		}
+		cfg := &printer.Config{Indent: printer.Style(*c.Indent), Width: c.Width, Case: true}
+		guard("Fprint", func() error { var b bytes.Buffer; return cfg.Fprint(&b, cmds[0]) })
+	case c.Source != nil:
+		c19Configs = nil
+		for m := 0; m < 256; m++ {
+			c19Configs = append(c19Configs, mkConfig(m))
+		}
+		dir, err := os.MkdirTemp("", "c19replay")
+		if err == nil {
+			defer os.RemoveAll(dir)
+			os.WriteFile(filepath.Join(dir, "a"), nil, 0o644)
+			os.Mkdir(filepath.Join(dir, "b"), 0o755)
+			os.Chdir(dir)
+			defer os.Chdir("/")
+		}
+		c19Steps(*c.Source, func(string) {}, func(_ interface{}, detail string) {
+			if first == nil {
+				first = fmt.Errorf("%s", detail)
+			}
+		})
+	case c.Option != nil:
+		guard("Option.String", func() error { _ = interp.Option(*c.Option).String(); return nil })
+	case c.Eval != nil:
+		env := interp.NewExecEnv("sh")
+		env.Set("x", "5")
+		env.Set("y", "abc")
+		guard("Eval", func() error { _, e := env.Eval(*c.Eval); return e })
+		quiesce()
+	case c.Pattern != nil && c.Mode != nil:
+		guard("Match", func() error { _, e := pattern.Match([]string{*c.Pattern}, pattern.Mode(*c.Mode), c.Subject); return e })
+	case c.Pattern != nil:
+		guard("Match", func() error {
+			_, e := pattern.Match([]string{*c.Pattern, "a", *c.Pattern}, pattern.Prefix, "a")
+			return e
+		})
+	case c.Glob != nil:
+		guard("Glob", func() error { _, e := pattern.Glob(*c.Glob); return e })
+	default:
+		return fmt.Errorf("unrecognised C19 case %s", raw)
+	}
+	return first
 }
 
 func c19Run(w *W) {
@@ -483,6 +576,7 @@ func init() {
 			"all 2^14 Option values; nesting depth 1–40 of 5 compound forms × 12 indentation styles; under GODEBUG=panicnil=0 and =1. non-trivial = Eval cases (the only entry point with its own goroutine)",
 		assume: []string{"oracle: no panic, no process death, errors of the documented types (parser.Error, ArithExprError, ParamExpError, NoMatch, *regexp/syntax.Error)",
 			"Expand runs in a scratch directory holding one file and one directory; command substitutions are not executed by Expand"},
-		run: c19Run,
+		run:    c19Run,
+		replay: c19Replay,
 	})
 }
